@@ -35,10 +35,14 @@ DryAtt(pre, post, g) ==
   IN IF Len(t1) >= Len(t0) THEN SubSeq(t1, Len(t0) + 1, Len(t1))
      ELSE SortSeq(SetToSeq(removed), LAMBDA a, b : IF a \in DOMAIN created /\ b \in DOMAIN created THEN created[a] > created[b] ELSE FALSE)
 
+\* the group scanned last (the one whose scan returned the fatal error, if any)
+LastScanned(line) == LET cs == SelectSeq(line.calls, LAMBDA c : c.op = "list_pods") IN IF cs = <<>> THEN "" ELSE cs[Len(cs)].g
+
 ObsOf(line, pre, post) ==
   [g \in DOMAIN pre.groups |->
      [att |-> IF DryOf(pre.groups[g], pre.dryAll) THEN DryAtt(pre, post, g) ELSE GetSeq(line, g),
-      nd  |-> post.groups[g].ctl.delta]]
+      nd  |-> post.groups[g].ctl.delta,
+      ndAny |-> line.ret = "notingroup" /\ g = LastScanned(line)]]
 
 \* components of the post-state that the scan determines
 PostPart(gs) == [api |-> gs.api, asg |-> gs.asg, pc |-> gs.pc, ctl |-> gs.ctl, accepted |-> gs.accepted]
